@@ -419,7 +419,7 @@ func (e *Enc) lookup(s *State, name, sort string) Term {
 			for i := len(vals) - 2; i >= 0; i-- {
 				rhs = Ite(s.conds[i], vals[i], rhs)
 			}
-			e.sc.Assert(Eq(t, rhs))
+			e.sc.AssertDef(t.S, Eq(t, rhs))
 		}
 	}
 	s.vals[name] = t
